@@ -30,6 +30,7 @@ VARIABLES levels, used, idx, map, ops, hist,   \* DynamicPGM's variables
           nviol, ndrift, drifted,
           prevL,    \* last logged layout of this execution
           rej,      \* the last update was rejected: the next layout must equal prevL
+          cnt,      \* event counters (reported in the evidence)
           done
 
 D == INSTANCE DynamicPGM WITH Base <- Cfg.base, MinLevel <- Cfg.minl, MinIndexLevel <- Cfg.mini, MaxLvl <- Cfg.maxl,
@@ -37,7 +38,7 @@ D == INSTANCE DynamicPGM WITH Base <- Cfg.base, MinLevel <- Cfg.minl, MinIndexLe
                               RecordHist <- FALSE
 
 mvars == <<levels, used, idx, map, ops, hist>>
-tvars == <<l, x, nk, nviol, ndrift, drifted, prevL, rej, done>>
+tvars == <<l, x, nk, nviol, ndrift, drifted, prevL, rej, cnt, done>>
 
 Ev == Trc[l]
 IsEvent(e) == l <= NLines /\ Ev.e = e /\ l' = l + 1
@@ -57,12 +58,13 @@ TInit == /\ levels = D!EmptyLevels /\ used = Cfg.minl /\ idx = D!EmptyLevels /\ 
          /\ ops = 0 /\ hist = <<>>
          /\ l = 2 /\ x = -1 /\ nk = 0 /\ nviol = 0 /\ ndrift = 0 /\ drifted = FALSE /\ prevL = NoLayout /\ rej = FALSE
          /\ done = FALSE
+         /\ cnt = [updates |-> 0, layouts |-> 0, observations |-> 0, point_answers |-> 0, traversals |-> 0, ranges |-> 0, merges_seen |-> 0]
 
 TReset == /\ IsEvent("Reset")
           /\ x' = Ev.x /\ nk' = Ev.nkeys /\ drifted' = FALSE /\ prevL' = NoLayout /\ rej' = FALSE
           /\ levels' = D!EmptyLevels /\ used' = Cfg.minl /\ idx' = D!EmptyLevels
           /\ map' = [k \in 0..(Cfg.nkeys - 1) |-> 0]
-          /\ UNCHANGED <<ops, hist, nviol, ndrift, done>>
+          /\ UNCHANGED <<ops, hist, nviol, ndrift, cnt, done>>
 
 \* constructor from a range: sorted input is loaded (first of equal keys wins), unsorted input must be rejected
 TBulk == /\ IsEvent("Bulk")
@@ -77,7 +79,7 @@ TBulk == /\ IsEvent("Bulk")
                           ELSE UNCHANGED <<levels, used, idx>>
                        /\ map' = st.map
                   ELSE UNCHANGED <<levels, used, idx, map>>
-         /\ UNCHANGED <<ops, hist, x, nk, ndrift, drifted, prevL, rej, done>>
+         /\ UNCHANGED <<ops, hist, x, nk, ndrift, drifted, prevL, rej, cnt, done>>
 
 TPut == /\ IsEvent("Put")
         /\ IF Ev.out = "ok"
@@ -88,6 +90,7 @@ TPut == /\ IsEvent("Put")
         \* a value other than the reserved one must be accepted (values logged as 0 are the reserved tombstone)
         /\ nviol' = nviol + CountFailed(<< <<(Ev.out = "ok") = (Ev.v # 0), "C20", "put_outcome">>,
                                            <<Ev.out \in {"ok", "invalid_argument"}, "C20", "put_exception_type">> >>, 1)
+        /\ cnt' = [cnt EXCEPT !.updates = @ + 1]
         /\ UNCHANGED <<ops, hist, x, nk, ndrift, drifted, prevL, done>>
 
 TDel == /\ IsEvent("Del")
@@ -95,6 +98,7 @@ TDel == /\ IsEvent("Del")
         /\ map' = [map EXCEPT ![Ev.k] = 0]
         /\ nviol' = nviol + CountFailed(<< <<Ev.out = "ok", "C05", "erase_outcome">> >>, 1)
         /\ rej' = FALSE
+        /\ cnt' = [cnt EXCEPT !.updates = @ + 1]
         /\ UNCHANGED <<ops, hist, x, nk, ndrift, drifted, prevL, done>>
 
 (***************************************************************************)
@@ -137,6 +141,8 @@ TLayout == /\ IsEvent("Layout")
                  THEN Drift("layout") /\ drifted' = TRUE /\ ndrift' = ndrift + 1
                  ELSE UNCHANGED <<drifted, ndrift>>
               /\ prevL' = L
+              /\ cnt' = [cnt EXCEPT !.layouts = @ + 1,
+                                    !.merges_seen = @ + (IF prevL # NoLayout /\ prevL.used >= 0 /\ Len(L.lv) > 0 /\ prevL.lv # L.lv /\ LvOf(L, Cfg.minl) = <<>> THEN 1 ELSE 0)]
            /\ rej' = FALSE
            /\ UNCHANGED <<x, nk, done>>
 
@@ -157,6 +163,7 @@ TObs == /\ IsEvent("Obs")
               <<\A i \in 1..Len(O.ranges) : O.ranges[i].r = D!MapPairs(O.ranges[i].lo, O.ranges[i].hi), "C06", "range">>,
               <<O.size = Cardinality(D!LiveKeys), "C06", "size">>,
               <<O.empty = (D!LiveKeys = {}), "C06", "empty">> >>, 1)
+        /\ cnt' = [cnt EXCEPT !.observations = @ + 1, !.point_answers = @ + 3 * nk, !.traversals = @ + 1 + Len(Ev.iters), !.ranges = @ + Len(Ev.ranges)]
         /\ UNCHANGED <<x, nk, ndrift, drifted, prevL, rej, done>>
 
 \* observations through the C interface (find, lower_bound + iterator_next, begin, size), sampled
@@ -169,16 +176,18 @@ TCObs == /\ IsEvent("CObs")
                <<\A i \in 1..Len(O.lbs) : O.lbs[i].r = D!MapPairsUpTo(O.lbs[i].q, MaxK, O.lbs[i].limit), "C18", "lower_bound_iterator_next">>,
                <<O.begin = D!MapPairsUpTo(0, MaxK, O.blimit), "C18", "begin_iterator_next">>,
                <<O.size = Cardinality(D!LiveKeys), "C18", "size">> >>, 1)
+         /\ cnt' = [cnt EXCEPT !.observations = @ + 1, !.point_answers = @ + Len(Ev.find), !.traversals = @ + 1 + Len(Ev.lbs)]
          /\ UNCHANGED <<x, nk, ndrift, drifted, prevL, rej, done>>
 
 TEnd == /\ IsEvent("End")
         /\ UNCHANGED mvars
-        /\ UNCHANGED <<x, nk, nviol, ndrift, drifted, prevL, rej, done>>
+        /\ UNCHANGED <<x, nk, nviol, ndrift, drifted, prevL, rej, cnt, done>>
 
 TDone == /\ l = NLines + 1 /\ ~done
          /\ PrintT(<<"TRACE-DONE", NLines, nviol, ndrift>>)
+         /\ \A f \in DOMAIN cnt : PrintT(<<"TRACE-COUNT", f, cnt[f]>>)
          /\ done' = TRUE
-         /\ UNCHANGED mvars /\ UNCHANGED <<l, x, nk, nviol, ndrift, drifted, prevL, rej>>
+         /\ UNCHANGED mvars /\ UNCHANGED <<l, x, nk, nviol, ndrift, drifted, prevL, rej, cnt>>
 
 TNext == TReset \/ TBulk \/ TPut \/ TDel \/ TLayout \/ TObs \/ TCObs \/ TEnd \/ TDone
 TSpec == TInit /\ [][TNext]_<<mvars, tvars>>
